@@ -11,6 +11,7 @@ Record cache := { cap : nat; items : list (N * Z) }.
 Inductive op :=
 | Get (k : N)                 (* c[k] *)
 | GetD (k : N) (d : Z)        (* c.get(k, d) *)
+| GetN (k : N)                (* c.get(k): the default of the default is None *)
 | Set_ (k : N) (v : Z)        (* c[k] = v *)
 | Del (k : N)                 (* del c[k] *)
 | Contains (k : N)            (* k in c *)
@@ -19,7 +20,7 @@ Inductive op :=
 | Iter.                       (* list(iter(c)) *)
 
 Inductive out :=
-| OVal (v : Z) | OKeyError | ODone | OBool (b : bool) | OLen (n : nat)
+| OVal (v : Z) | OKeyError | ODone | OBool (b : bool) | OLen (n : nat) | ONone
 | OKeys (l : list N) | OVals (l : list Z) | OItems (l : list (N * Z)).
 
 Fixpoint lookup (k : N) (l : list (N * Z)) : option Z :=
@@ -57,6 +58,7 @@ Definition step (c : cache) (o : op) : cache * out :=
   match o with
   | Get k => match do_get c k with (c', Some v) => (c', OVal v) | (c', None) => (c', OKeyError) end
   | GetD k d => match do_get c k with (c', Some v) => (c', OVal v) | (c', None) => (c', OVal d) end
+  | GetN k => match do_get c k with (c', Some v) => (c', OVal v) | (c', None) => (c', ONone) end
   | Set_ k v => (do_set c k v, ODone)
   | Del k => match lookup k (items c) with
              | Some _ => (with_items c (remove_key k (items c)), ODone)
@@ -70,6 +72,9 @@ Definition step (c : cache) (o : op) : cache * out :=
   end.
 
 Definition empty (n : nat) : cache := {| cap := n; items := [] |}.
+
+(* LRUCache.__init__(capacity): ValueError (None) for a capacity below 1, else an empty cache *)
+Definition make (n : Z) : option cache := if (n <? 1)%Z then None else Some (empty (Z.to_nat n)).
 
 (* run an op list, collecting every output and the item list after every op *)
 Fixpoint run (c : cache) (ops : list op) : list (out * list (N * Z)) :=
@@ -111,6 +116,10 @@ Definition gstep (g : gcache) (o : op) : gcache * out :=
   | GetD k d => match glookup k (gitems g) with
              | Some (v, _) => (gwith g (gremove k (gitems g) ++ [(k, v, clock g)]), OVal v)
              | None => (gwith g (gitems g), OVal d)
+             end
+  | GetN k => match glookup k (gitems g) with
+             | Some (v, _) => (gwith g (gremove k (gitems g) ++ [(k, v, clock g)]), OVal v)
+             | None => (gwith g (gitems g), ONone)
              end
   | Set_ k v => match glookup k (gitems g) with
              | Some _ => (gwith g (gremove k (gitems g) ++ [(k, v, clock g)]), ODone)
@@ -212,7 +221,7 @@ Definition kv_eqb (a b : N * Z) : bool := N.eqb (fst a) (fst b) && Z.eqb (snd a)
 Definition out_eqb (a b : out) : bool :=
   match a, b with
   | OVal x, OVal y => Z.eqb x y
-  | OKeyError, OKeyError | ODone, ODone => true
+  | OKeyError, OKeyError | ODone, ODone | ONone, ONone => true
   | OBool x, OBool y => Bool.eqb x y
   | OLen x, OLen y => Nat.eqb x y
   | OKeys x, OKeys y => list_eqb N.eqb x y
